@@ -501,12 +501,14 @@ func genRec(r *core.RNG, idx int) recSpec {
 		s.SeqLen = r.Range(0, 400)
 	}
 	s.SeqSeed = r.U64()
-	if r.Chance(1, 10) {
+	if r.Chance(1, 12) {
+		s.Alphabet = "acgt-n" // alignment gaps
+	} else if r.Chance(1, 10) {
 		s.Alphabet = "acgtnrykm"
 	} else if r.Chance(1, 15) {
 		s.Alphabet = "ACGT"
 	} else if s.Molecule == "AA" {
-		s.Alphabet = "acdefghiklmnpqrstvwy"
+		s.Alphabet = "acdefghiklmnpqrstvwy*-"
 	}
 	switch r.Intn(8) {
 	case 0: // CONTIG only, no ORIGIN
